@@ -61,7 +61,7 @@ def _acts_for(menu, aid, t, k):
 def is_inert(x):
     """True for a scripted agent that will certainly return [] if consulted now."""
     ctx = RUN
-    if ctx is None or ctx.sim is None or not isinstance(x, (ScriptedAgent, ScriptedHFT)):
+    if ctx is None or ctx.sim is None or not isinstance(x, (ScriptedAgent, ScriptedHFT, LateBoundAgent)):
         return False
     t = ctx.sim.markets[0].get_time()
     return not _acts_for(ctx.menu, x.agent_id, t, ctx.consults.get(x.agent_id, 0))
@@ -189,6 +189,20 @@ class ScriptedHFT(HighFrequencyAgent):
         RUN.emit("canceled", self, log)
 
 
+class LateBoundAgent(Agent):
+    """user agent whose call-backs are chosen in setup() and bound on the instance (a handler picked from the
+    settings); the class itself only has Agent's defaults."""
+
+    def submit_orders(self, markets):
+        return _decide(self, markets)
+
+    def setup(self, settings, accessible_markets_ids, *args, **kwargs):
+        super().setup(settings, accessible_markets_ids, *args, **kwargs)
+        self.submitted_order = lambda log: RUN.emit("submitted", self, log)
+        self.executed_order = lambda log: RUN.emit("executed", self, log)
+        self.canceled_order = lambda log: RUN.emit("canceled", self, log)
+
+
 class StreamLogger(RecLogger):
     """RecLogger that also reports every delivery to the run context (online oracles)."""
 
@@ -244,7 +258,7 @@ def make_run(g, settings, menu, classes=(), logger_cls=StreamLogger, on_event=No
     if menu.get("reduce_inert", True):
         prng.inert = is_inert
     r = SequentialRunner(settings=settings, prng=prng, logger=ctx.logger)
-    for c in (ScriptedAgent, ScriptedHFT, ProbeAll) + tuple(classes):
+    for c in (ScriptedAgent, ScriptedHFT, LateBoundAgent, ProbeAll) + tuple(classes):
         r.class_register(c)
     ctx.runner = r
     r._setup()
